@@ -109,7 +109,7 @@ def c07_ir(draw, tier, exclude):
             if kind == "float":
                 return draw(st.sampled_from([0.0, 0.5, -1.25, 3.0, 1.0]))
             if kind == "str":
-                return draw(st.sampled_from(["", "a", "A b", "é", "x"]))
+                return draw(st.sampled_from(["", "a", "A b", "A b", "é", "x", "2024-05-17"]))
             return draw(st.booleans())
 
         def atom():
@@ -148,7 +148,7 @@ def c07_ir(draw, tier, exclude):
                 return {"c": "cmp", "path": ["uid"], "op": draw(st.sampled_from(sorted(OPS))), "lit": {"k": "int", "v": draw(st.integers(0, 5))}}
             p, kind = draw(st.sampled_from(sp))
             if k == "in":
-                return {"c": "in", "path": p, "lits": [lit(kind) for _ in range(draw(st.integers(0, 3)))], "form": draw(st.sampled_from(["in", "contains"]))}
+                return {"c": "in", "path": p, "lits": [lit(kind) for _ in range(draw(st.sampled_from([0, 1, 1, 1, 2, 3])))], "form": draw(st.sampled_from(["in", "contains"]))}
             if k == "substr":
                 strs = [(q, kk) for q, kk in sp if kk == "str"]
                 if strs:
